@@ -38,10 +38,14 @@ def gen(rng, tier, run):
     spread = rng.choice([0.5, 1.0, 2.0, 3.0, 6.0])
     special = rng.random() < 0.35
 
+    tiny = rng.random() < 0.1       # strictly positive errors whose squares underflow
+
     def cell_err():
         r = rng.random()
         if r < 0.12:
             return 0.0
+        if tiny and r < 0.5:
+            return rng.choice([1e-170, 5e-324, 1e-200, 2.2250738585072014e-308, 1.4e-162])
         return rng.choice([rng.uniform(0.01, 5.0), float(rng.randrange(1, 5))])
 
     ref_v = [rng.choice([rng.uniform(-100, 100), float(rng.randrange(-5, 6))]) for _ in range(size)]
@@ -74,8 +78,19 @@ def gen(rng, tier, run):
                 other = rng.choice([d for d in [ref] + dss if d is not tgt])
                 other['v' if arr is tgt['v'] else 'e'][i] = val
 
+    # integer-valued datasets (legal input: Dataset accepts integer arrays)
+    if rng.random() < 0.15:
+        for d in [ref] + dss:
+            if rng.random() < 0.6 and all(math.isfinite(x) for x in d['v'] + d['e']):
+                d['v'] = [float(round(x)) for x in d['v']]
+                d['e'] = [float(round(x)) for x in d['e']]
+                d['int'] = True
+
     def enc(d):
-        return {'v': [bits(x) for x in d['v']], 'e': [bits(x) for x in d['e']]}
+        out = {'v': [bits(x) for x in d['v']], 'e': [bits(x) for x in d['e']]}
+        if d.get('int'):
+            out['int'] = True
+        return out
     return {'shape': shape, 'ref': enc(ref), 'dss': [enc(d) for d in dss], 'alpha': alpha, 'ndf': ndf,
             'k': rng.randrange(-20, 21), 'cell': rng.randrange(size), 'grow': rng.uniform(0.1, 3.0)}
 
@@ -88,7 +103,7 @@ def shrink(case):
     if size > 1:
         for i in range(size):
             def cut(d):
-                return {'v': d['v'][:i] + d['v'][i + 1:], 'e': d['e'][:i] + d['e'][i + 1:]}
+                return dict(d, v=d['v'][:i] + d['v'][i + 1:], e=d['e'][:i] + d['e'][i + 1:])
             yield dict(case, shape=[size - 1], ref=cut(case['ref']), dss=[cut(d) for d in case['dss']],
                        cell=min(case['cell'], size - 2))
 
@@ -98,9 +113,12 @@ def mkds(d, shape, scale=1.0):
     from valjean.eponine.dataset import Dataset
     v = [unbits(x) * scale for x in d['v']]
     e = [unbits(x) * scale for x in d['e']]
+    # integer dtype only when the (rescaled) numbers still are integers
+    asint = bool(d.get('int')) and all(math.isfinite(x) and x == int(x) and abs(x) < 2 ** 53 for x in v + e)
+    dtype = int if asint else float
     if shape:
-        return Dataset(np.array(v, dtype=float).reshape(shape), np.array(e, dtype=float).reshape(shape))
-    return Dataset(np.float64(v[0]), np.float64(e[0]))
+        return Dataset(np.array(v, dtype=dtype).reshape(shape), np.array(e, dtype=dtype).reshape(shape))
+    return Dataset(np.int64(v[0]), np.int64(e[0])) if asint else Dataset(np.float64(v[0]), np.float64(e[0]))
 
 
 def evaluate(ref, dss, alpha, ndf):
